@@ -9,7 +9,7 @@ use_formula_memo()
 N = 3
 KINDS = ["raise", "zerodiv", "none"]
 ERR = {"raise": "ValueError", "zerodiv": "ZeroDivisionError", "none": "NoneReturnedError"}
-SHAPES = [0, 1, 3, 4, 6, 7]
+SHAPES = [0, 1, 3, 4, 6, 7, 8, 9]
 import os as _os
 MASKS = [0, 1, 2, 4, 6, 7, 3, 5]      # bit k set = cells k uncached; quick uses the first four
 MMAX = 3 if _os.environ.get("VERIF_TIER", "quick") == "quick" else 7
@@ -31,7 +31,7 @@ def _tb_ok(d, chain, what):
 @harness
 def traceback(v0: int, v1: int, v2: int, z: int, g: int, p1_1: int, p2_1: int, p1_2: int, p2_2: int, T2: bool,
               kind: int, sh: int, mask: int, prefix: int, F: int, FT: int, qa: int, q: int, t: int) -> bool:
-    kind, sh, mask, prefix, F, FT, q, t = pick(kind, 0, 2), pick(sh, 0, 5), pick(mask, 0, MMAX), pick(prefix, 0, 3), \
+    kind, sh, mask, prefix, F, FT, q, t = pick(kind, 0, 2), pick(sh, 0, 7), pick(mask, 0, MMAX), pick(prefix, 0, 3), \
         pick(F, 0, 2), pick(FT, 0, 1), pick(q, 0, 2), pick(t, 0, 1)
     kind = KINDS[kind]
     mask = MASKS[mask]
@@ -87,22 +87,22 @@ def _parts(tier, seed):
     if tier == "quick":
         # A: every DAG shape x failure position, plain selectors; B: every selector combination on the chain DAG
         ps = product(kind=[0], sh=[0], mask=[0], prefix=[0, 2], q=[2], t=[1], F=[0, 1, 2], FT=[0, 1])
-        ps += [dict(p, **_CHAIN) for p in product(kind=[0, 1, 2], sh=[0, 1, 2, 3, 4, 5], q=[2], t=[1], qa=[1])]
+        ps += [dict(p, **_CHAIN) for p in product(kind=[0, 1, 2], sh=[0, 1, 2, 3, 4, 5, 6, 7], q=[2], t=[1], qa=[1])]
         return ps
-    ps = product(kind=[0, 1, 2], sh=[0, 3, 4, 5], mask=[0, 2], prefix=[0, 1, 2, 3], q=[2], t=[1], F=[0, 1, 2], FT=[0, 1])
-    ps += [dict(p, **_CHAIN) for p in product(kind=[0, 1, 2], sh=[0, 1, 2, 3, 4, 5], prefix=[0, 1, 2, 3], q=[2, 1], qa=[0, 1, 2])]
+    ps = product(kind=[0, 1, 2], sh=[0, 3, 4, 5, 6, 7], mask=[0, 2], prefix=[0, 1, 2, 3], q=[2], t=[1], F=[0, 1, 2], FT=[0, 1])
+    ps += [dict(p, **_CHAIN) for p in product(kind=[0, 1, 2], sh=[0, 1, 2, 3, 4, 5, 6, 7], prefix=[0, 1, 2, 3], q=[2, 1], qa=[0, 1, 2])]
     return ps
 
 
 QUERIES = [
     Query("traceback", traceback,
-          pre=dag_pre(N) + ["0 <= kind < 3", "0 <= sh < 6", "0 <= mask <= %d" % MMAX, "0 <= prefix < 4", "0 <= F < 3", "0 <= FT <= 1", "0 <= qa < 3",
+          pre=dag_pre(N) + ["0 <= kind < 3", "0 <= sh < 8", "0 <= mask <= %d" % MMAX, "0 <= prefix < 4", "0 <= F < 3", "0 <= FT <= 1", "0 <= qa < 3",
                             "0 <= q < 3", "0 <= t <= 1"],
           partitions=_parts,
           natives=[dict(_NAT, kind=k, sh=s, mask=m, prefix=p, F=f, FT=ft, qa=1, q=2, t=1)
                    for (k, s, m, p, f, ft) in ((0, 0, 0, 0, 0, 0), (1, 1, 0, 1, 1, 1), (2, 2, 0, 3, 0, 1), (0, 3, 2, 0, 0, 0), (0, 0, 0, 3, 2, 0),
-                                              (2, 0, 3, 1, 1, 0), (0, 0, 0, 2, 0, 0), (0, 4, 0, 0, 0, 0), (1, 5, 0, 0, 0, 1), (0, 4, 0, 2, 1, 0), (2, 5, 0, 1, 0, 0))],
-          bounds=lambda tier: {"cells": N, "t_max": 1, "kinds": KINDS, "call_shapes": ["f(t)", "f(t=t)", "genexpr", "nested lambda", "call inside try/finally", "call inside try/except <non-matching>"],
+                                              (2, 0, 3, 1, 1, 0), (0, 0, 0, 2, 0, 0), (0, 4, 0, 0, 0, 0), (1, 5, 0, 0, 0, 1), (0, 4, 0, 2, 1, 0), (2, 5, 0, 1, 0, 0), (0, 6, 0, 0, 0, 0), (2, 7, 0, 0, 0, 1), (1, 6, 0, 2, 1, 0), (0, 7, 2, 0, 0, 0))],
+          bounds=lambda tier: {"cells": N, "t_max": 1, "kinds": KINDS, "call_shapes": ["f(t)", "f(t=t)", "genexpr", "nested lambda", "call inside try/finally", "call inside try/except <non-matching>", "try/finally whose clean-up evaluates another cells", "except Exception: evaluate another cells; raise"],
                                "uncached_masks": "subset per tier", "history_prefix": PREFIX, "failure_position": "every (cells,t)", "dag": "pointers symbolic"},
           outside=["None returned by an uncached cells (not rejected by modelx, see C09 notes)", "chains through ItemSpaces", "more than one earlier failure", "N > 3"]),
 ]
